@@ -27,7 +27,7 @@ type StageInput struct {
 	Size  int    `json:"size"`  // size of each
 }
 
-const stageTmp = "/var/tmp/lcv-c10s"
+const stageTmp = "/var/tmp/lcv/c10s"
 
 func stageArgs(in StageInput, root, out string) []string {
 	args := []string{"-root", root}
